@@ -25,6 +25,7 @@ type rawCase struct {
 	WellTyped bool     // user code (minus the derive calls) is well-typed: a successful run must compile
 	Names     []string // identifiers / type words one of which a diagnostic should mention
 	Desc      string
+	Args      []string // package arguments (default ./p)
 }
 
 type rawOutcome struct {
@@ -46,7 +47,11 @@ func (c *Ctx) runRaw(rc rawCase) *rawOutcome {
 	}
 	grun.WriteTree(dir, files)
 	before := grun.Snapshot(dir)
-	g := c.Goderive(dir, append(append([]string{}, rc.Flags...), "./p"))
+	pkgArgs := rc.Args
+	if len(pkgArgs) == 0 {
+		pkgArgs = []string{"./p"}
+	}
+	g := c.Goderive(dir, append(append([]string{}, rc.Flags...), pkgArgs...))
 	after := grun.Snapshot(dir)
 	cr, del, ch := grun.Diff(before, after)
 	oc := &rawOutcome{Case: rc, Gen: g, Dir: dir}
@@ -139,6 +144,12 @@ func (c *Ctx) judgeC09(oc *rawOutcome, nsample *int) {
 		}
 	default:
 		outcome = "accepted"
+		if strings.HasPrefix(rc.Class, "multi:") {
+			// one of the named packages cannot be generated: the run as a whole must not report success,
+			// whatever order the packages are processed in
+			viol("failing-package-hidden-by-successful-ones", "goderive "+strings.Join(rc.Args, " ")+" exited 0 although package bad cannot be generated; stderr: "+trunc(oc.Gen.Stderr, 600))
+			return
+		}
 		if mustReject(rc.Class) {
 			// "An argument type outside a plugin's supported set is always reported": chan / func / interface
 			// constituents are documented as unsupported by every type-directed plugin
@@ -403,6 +414,52 @@ func c09Cases(c *Ctx) []rawCase {
 		{"gostring", "func f1(a IDsA) string { return deriveGoStringA(a) }\n\nfunc f2(a IDsB) string { return deriveGoStringB(a) }"},
 	} {
 		add("named-pair:"+nc.name, "two named types with the same underlying type under "+nc.name, "package p\n\n"+named+nc.body+"\n", true, nc.name, "IDsA", "IDsB", "MapA", "MapB")
+	}
+	// ---- an undeclared type at every depth of an argument type ------------------------------------------
+	for _, pos := range []struct{ name, decl, typ string }{
+		{"named-field", "type S struct {\n\tA int\n\tK Missing\n}\n", "*S"},
+		{"anon-struct-field", "type S struct {\n\tA int\n\tIn struct {\n\t\tL    []int\n\t\tKind Missing\n\t}\n}\n", "*S"},
+		{"anon-struct-comparable", "type S struct {\n\tA int\n\tIn struct {\n\t\tN    int\n\t\tKind Missing\n\t}\n}\n", "*S"},
+		{"map-value", "type S struct{ M map[string]Missing }\n", "*S"},
+		{"map-key", "type S struct{ M map[Missing]int }\n", "*S"},
+		{"slice-of-ptr", "type S struct{ L []*Missing }\n", "*S"},
+		{"array", "type S struct{ L [2]Missing }\n", "S"},
+		{"nested-named", "type In struct{ K Missing }\n\ntype S struct{ P *In }\n", "*S"},
+		{"embedded", "type S struct {\n\tMissing\n\tA int\n}\n", "*S"},
+	} {
+		for _, pl := range []struct{ name, body string }{
+			{"equal", "func use(a, b %s) bool { return deriveEqual(a, b) }"},
+			{"compare", "func use(a, b %s) int { return deriveCompare(a, b) }"},
+			{"hash", "func use(a %s) uint64 { return deriveHash(a) }"},
+			{"clone", "func use(a %s) %s { return deriveClone(a) }"},
+			{"gostring", "func use(a %s) string { return deriveGoString(a) }"},
+			{"mem", "func f(a %s) int { return 1 }\n\nfunc use() func(%s) int { return deriveMem(f) }"},
+			{"unique", "func use(l []%s) []%s { return deriveUnique(l) }"},
+		} {
+			body := strings.ReplaceAll(pl.body, "%s", pos.typ)
+			n++
+			out = append(out, rawCase{Name: fmt.Sprintf("c09-%04d", n), Class: "broken:undeclared-type:" + pos.name + ":" + pl.name, Desc: pl.name + " over a type with an undeclared type at " + pos.name,
+				Files: map[string]string{"p/p.go": "package p\n\n" + pos.decl + "\n" + body + "\n"}, WellTyped: false})
+		}
+	}
+	// ---- several packages in one invocation, one of which cannot be generated ------------------------------
+	goodPkg := func(name string) string {
+		return "package " + name + "\n\ntype T struct {\n\tA int\n\tB []string\n}\n\nfunc eq(a, b *T) bool { return deriveEqual(a, b) }\n\nfunc h(a *T) uint64 { return deriveHash(a) }\n"
+	}
+	multi := map[string]string{"bad/b.go": "package bad\n\ntype T struct {\n\tA   int\n\tRun func() error\n}\n\nfunc eq(a, b *T) bool { return deriveEqual(a, b) }\n"}
+	for _, g := range []string{"p", "ga", "gb", "gc", "gd", "ge", "gf", "gg"} {
+		multi[g+"/g.go"] = goodPkg(g)
+	}
+	for i := 0; i < tierN(c, 10, 30); i++ {
+		n++
+		args := []string{"./..."}
+		if i%3 == 1 {
+			args = []string{"./bad", "./p", "./ga", "./gb", "./gc"}
+		} else if i%3 == 2 {
+			args = []string{"./gd", "./ge", "./bad", "./gf", "./gg"}
+		}
+		out = append(out, rawCase{Name: fmt.Sprintf("c09-%04d", n), Class: fmt.Sprintf("multi:one-bad-package:%s", strings.Join(args, ",")), Desc: "eight good packages and one that cannot be generated, run " + fmt.Sprint(i),
+			Files: multi, WellTyped: false, Args: args, Names: []string{"bad", "func"}})
 	}
 	// ---- broken user files ----------------------------------------------------------------------
 	good := "package p\n\ntype T struct {\n\tA int\n\tB []string\n}\n\nfunc eq(a, b *T) bool { return deriveEqual(a, b) }\n"
